@@ -134,7 +134,9 @@ def strategy(tier, shard):
             pparams[f] = v
             invalid = dict(where="problem", field=f, value=v)
         return dict(skind=skind, pkind=pkind, pparams=pparams, sparams=sp, invalid=invalid,
-                    precision=(invalid is None and draw(st.integers(0, 4)) == 0))
+                    precision=(invalid is None and draw(st.integers(0, 4)) == 0),
+                    # another solver with jax_double_precision=False is built in between (must not change this solver's precision)
+                    interloper=(invalid is None and draw(st.integers(0, 3)) == 0))
 
     return cases()
 
@@ -262,6 +264,13 @@ def judge(case):
                 diff = {k: (norms["kwargs"].get(k), norms[r].get(k)) for k in set(norms["kwargs"]) | set(norms[r])
                         if norms["kwargs"].get(k) != norms[r].get(k)}
                 return verdict_fail(f"routes-differ:config:{r}", f"{skind}/{pkind}: fields differ (kwargs, {r}): {diff}", classes=classes)
+        if case.get("interloper"):
+            classes.append("single-precision-solver-built-in-between")
+            try:
+                scls(problem=pcls(**pparams), **dict(with_dir({k: v for k, v in sparams.items() if k != "checkpoint_frequency"}, "x"),
+                                                   jax_double_precision=False, checkpoint_frequency=0))
+            except Exception as e:
+                return verdict_fail("valid-rejected:single-precision:" + sut_bucket(e), f"{skind}/{pkind}: {e!r}", classes=classes)
         results = {}
         for r, s in solvers.items():
             try:
